@@ -180,21 +180,22 @@ class ASTMProtocol(asyncio.Protocol):
             self.discard_env()
             return
 
-        # Wrap the message
-        wrapper = Wrapper(self.messages)
+        try:
+            # Wrap the message
+            wrapper = Wrapper(self.messages)
 
-        if self.message_format == "astm":
-            self.queue.put_nowait(wrapper.to_astm())
-        elif self.message_format == "json":
-            self.queue.put_nowait(wrapper.to_json())
-        else:
-            self.queue.put_nowait(wrapper.to_lis2a())
+            if self.message_format == "astm":
+                self.queue.put_nowait(wrapper.to_astm())
+            elif self.message_format == "json":
+                self.queue.put_nowait(wrapper.to_json())
+            else:
+                self.queue.put_nowait(wrapper.to_lis2a())
 
-        # Store the raw message for debugging and development purposes
-        self.log_message(wrapper.to_astm())
-
-        # Drop session
-        self.discard_env()
+            # Store the raw message for debugging and development purposes
+            self.log_message(wrapper.to_astm())
+        finally:
+            # Drop session, also when the message could not be rendered
+            self.discard_env()
 
     def log_message(self, message, directory="astm_messages"):
         """Store the raw ASTM message if the folder exists in the CWD
